@@ -15,7 +15,13 @@ import (
 	"time"
 )
 
-const Root = "/verif"
+// Root of the verification tree (evidence/, replays/, known_findings.json)
+var Root = func() string {
+	if r := os.Getenv("VERIF_ROOT"); r != "" {
+		return r
+	}
+	return "/verif"
+}()
 
 type Evidence struct {
 	PropertyID  string         `json:"property_id"`
